@@ -113,24 +113,24 @@ chk('C18', 'model_checking',
 ADDENDA = {
  'C01': ' Extended after seeding: byte alphabet of 41 symbols incl. one representative per class of Go\'s unicode package (Nd digit, full-width digit, letter number, no-break space, line separator, BOM, full-width letter).',
  'C02': ' Extended after seeding: every non-default atom at every leaf of every depth-2 shape in the quick tier; literal non-ASCII strings and 0X hex floats in the literal table; the same label text under == and ~ in one switch.',
- 'C03': ' Extended after seeding (shared grammar): long strings with runs of empty lines, nested / negated groups, ACL masks /0 /32 /128, functional return with parentheses, an empty-line decoration at every leading slot, 108 else-if programs sweeping the line end through columns 100-135. Third round: an empty line before / after / around a comment at every placeholder, every placeholder filled at once (with and without empty lines), 8 more options crossed with single comments, placeholders around the arguments of a call inside an expression, two long strings on one line of a condition, doubly escaped %2541 in table entries and switch controls.',
- 'C04': ' Extended after seeding: 26 situations (two includes in both orders, nested include), an include-reachability parse in the reference that does not go through the linter, and -generated / -generated -json as modes. Third round: literals at and beyond the range of their type.',
- 'C06': ' Extended after seeding: every compiled vcl_hash appends req.url and req.http.host to req.hash (the key must be derived afresh on every attempt).',
- 'C07': ' Extended after seeding: a wide-mask ACL family (/0, /1, byte-boundary masks); a reference-free position law (22 conditions x 6 positions must agree); 432 mixed-type arithmetic cells compared with a committed snapshot of the pinned tree (decides drift only). Third round: += as the first write to a never-assigned STRING.',
- 'C08': ' Extended after seeding: non-recursive call graphs with exponential expansion; header values malformed as sub-field lists on every object and in request headers; 7 director types x member shapes x properties x selection place x return state. Third round: concatenations with signed / prefixed terms in every position x 7 contexts; the symmetric cipher built-ins with well-formed keys and IVs (cipher x mode x padding x length around the block size); director weights around 1000.',
- 'C09': ' Extended after seeding: 10 decorations (incl. /** c **/, /* c **/, /**/, multi-line), a 4th executable program with ID-typed arguments and directors, programs the parser rejects, annotated programs with a comment next to the annotation, a sign-gap family. Third round: carriage return / CRLF decorations and whole files with CRLF line ends.',
+ 'C03': ' Extended after seeding (shared grammar): long strings with runs of empty lines, nested / negated groups, ACL masks /0 /32 /128, functional return with parentheses, an empty-line decoration at every leading slot, 108 else-if programs sweeping the line end through columns 100-135. Third round: an empty line before / after / around a comment at every placeholder, every placeholder filled at once (with and without empty lines), 8 more options crossed with single comments, placeholders around the arguments of a call inside an expression, two long strings on one line of a condition, doubly escaped %2541 in table entries and switch controls. Fourth round: line comments whose text looks like an opener of a block comment / long string; a comment plus a later comment separated from its statement by an empty line.',
+ 'C04': ' Extended after seeding: 26 situations (two includes in both orders, nested include), an include-reachability parse in the reference that does not go through the linter, and -generated / -generated -json as modes. Third round: literals at and beyond the range of their type. Fourth round: single surplus token at the end of a file, verdict by construction for syntax-error situations.',
+ 'C06': ' Extended after seeding: every compiled vcl_hash appends req.url and req.http.host to req.hash (the key must be derived afresh on every attempt). Extended after seeding (fourth round): every history of up to 3 (4) requests whose restarted attempt may look up another URL, against a map model of the cache.',
+ 'C07': ' Extended after seeding: a wide-mask ACL family (/0, /1, byte-boundary masks); a reference-free position law (22 conditions x 6 positions must agree); 432 mixed-type arithmetic cells compared with a committed snapshot of the pinned tree (decides drift only). Third round: += as the first write to a never-assigned STRING. Fourth round: 180 shift / rotate cells with negative operands and counts beyond 63 in the pinned snapshot.',
+ 'C08': ' Extended after seeding: non-recursive call graphs with exponential expansion; header values malformed as sub-field lists on every object and in request headers; 7 director types x member shapes x properties x selection place x return state. Third round: concatenations with signed / prefixed terms in every position x 7 contexts; the symmetric cipher built-ins with well-formed keys and IVs (cipher x mode x padding x length around the block size); director weights around 1000. Fourth round: programs refused at initialisation asked three times; parked-body detection through the goroutine dump for requests that block forever.',
+ 'C09': ' Extended after seeding: 10 decorations (incl. /** c **/, /* c **/, /**/, multi-line), a 4th executable program with ID-typed arguments and directors, programs the parser rejects, annotated programs with a comment next to the annotation, a sign-gap family. Third round: carriage return / CRLF decorations and whole files with CRLF line ends. Fourth round: comment text that looks like code; programs whose diagnostics depend on counting capture groups.',
  'C10': ' Extended after seeding: set-but-empty inputs, a shared fixture with merge-then-overwrite writer and merging reader, nested-if() leaves that read the capture inside the called subroutine (38 leaves).',
- 'C11': ' Extended after seeding: functional subroutines with 0-2 parameters called with 0-3 arguments; 9 permuted programs incl. per-subroutine goto labels and locals. Third round: subroutines whose scope is the union of 3-6 callers\' scopes; 51 regex literals ending inside a group / class / quantifier / escape x 8 contexts; maps with more than 4 keys iterated in 2n orders.',
- 'C12': ' Extended after seeding: 15 base programs (switch cases, late diagnostics, empty blocks), stacked next-line comments, ranges ending inside a later empty block. Third round: directives on break; / fallthrough;, the same unused local name in two subroutines.',
- 'C13': ' Extended after seeding: unary operators composed with groups and if() in the quick tier, calls from a caller without capture groups, TIME +/- RTIME inside concatenations, declare-with-initialiser histories. Third round: REGEX locals and parameters observed through matches; a never-assigned STRING local and obj.response in the pool.',
+ 'C11': ' Extended after seeding: functional subroutines with 0-2 parameters called with 0-3 arguments; 9 permuted programs incl. per-subroutine goto labels and locals. Third round: subroutines whose scope is the union of 3-6 callers\' scopes; 51 regex literals ending inside a group / class / quantifier / escape x 8 contexts; maps with more than 4 keys iterated in 2n orders. Fourth round: capture-group state under permutations; includes inside an if block (12288 graphs).',
+ 'C12': ' Extended after seeding: 15 base programs (switch cases, late diagnostics, empty blocks), stacked next-line comments, ranges ending inside a later empty block. Third round: directives on break; / fallthrough;, the same unused local name in two subroutines. Fourth round: CRLF line ends and white space behind the directive.',
+ 'C13': ' Extended after seeding: unary operators composed with groups and if() in the quick tier, calls from a caller without capture groups, TIME +/- RTIME inside concatenations, declare-with-initialiser histories. Third round: REGEX locals and parameters observed through matches; a never-assigned STRING local and obj.response in the pool. Fourth round: a count beyond 63 in the pool.',
  'C14': ' (Shares the extended grammar and decorations of C03.) Third round: see C03; the all-placeholders case with empty lines uses block comments at inline placeholders.',
  'C15': ' (Shares the extended grammar and decorations of C03; decorated programs are also run with return_statement_parenthesis=false.) Third round: see C03; placeholders around the arguments of a call inside an expression are left out (not in docs/parser.md\'s list).',
- 'C17': ' Extended after seeding: sub-field values with separators, values starting / ending with a line break, keys that differ in one punctuation character, cross-object histories (an operation on one object must not move another object\'s reads). Third round: set H += V histories (append law); sub-field keys that differ in letter case only.',
- 'C18': ' Extended after seeding: channel receive / send / close are owned by the scheduler (instrumenter rewrite, happens-before through channels); a progress backstop abandons an execution blocked in anything else; quick tier caps a scenario at 6000 executions (reported as not exhaustive); plugins on a compound statement with an ignored nested statement. Third round: a response whose body carries an ESI include next to every other request kind; a plugin that is not installed (first / middle / last); a per-worker soft deadline (15 min quick, 50 min thorough: scenarios left are reported as a cap).',
+ 'C17': ' Extended after seeding: sub-field values with separators, values starting / ending with a line break, keys that differ in one punctuation character, cross-object histories (an operation on one object must not move another object\'s reads). Third round: set H += V histories (append law); sub-field keys that differ in letter case only. Fourth round: the objects in the other scopes that may write them.',
+ 'C18': ' Extended after seeding: channel receive / send / close are owned by the scheduler (instrumenter rewrite, happens-before through channels); a progress backstop abandons an execution blocked in anything else; quick tier caps a scenario at 6000 executions (reported as not exhaustive); plugins on a compound statement with an ignored nested statement. Third round: a response whose body carries an ESI include next to every other request kind; a plugin that is not installed (first / middle / last); a per-worker soft deadline (15 min quick, 50 min thorough: scenarios left are reported as a cap). Fourth round: a FASTLYPURGE request next to every other request kind.',
  'C19': ' Extended after seeding: expression shapes x 8 contexts incl. if() with 2-3 composite operands; programs of 4-7 kB across the decoder\'s read-buffer boundary at every alignment.',
- 'C20': ' Extended after seeding: 4 Terraform module layouts (items / service in child and grandchild modules); backend names that differ only in the length of a run of non-identifier characters, with a distinctness oracle. Third round: the real remote.FastlyApiFetcher behind a fake Fastly API built from the case; Terraform plans with two services generated one after the other on one fetcher.',
- 'C05': ' Extended after seeding (third round): signed literals, signed locals and signed predefined variables as operands.',
- 'C16': ' Extended after seeding: two-run histories, 2-3 targets in one invocation, and (third round) the command-line target being a symbolic link.',
+ 'C20': ' Extended after seeding: 4 Terraform module layouts (items / service in child and grandchild modules); backend names that differ only in the length of a run of non-identifier characters, with a distinctness oracle. Third round: the real remote.FastlyApiFetcher behind a fake Fastly API built from the case; Terraform plans with two services generated one after the other on one fetcher. Fourth round: comment and statement delimiters (*/ /* // CR TAB) as field content.',
+ 'C05': ' Extended after seeding (third round): signed literals, signed locals and signed predefined variables as operands. Fourth round: disallowed reads repeated behind a legal use in another subroutine.',
+ 'C16': ' Extended after seeding: two-run histories, 2-3 targets in one invocation, and (third round) the command-line target being a symbolic link. Fourth round: a file full of percent signs.',
 }
 NOT_YET = {i: 'check not built yet in this session (design in DESIGN.md §4); will be claimed once its command exists' for i in ids if i not in CHECKS}
 
